@@ -37,6 +37,8 @@ func init() {
 		// up running the handler of y, the process reports itself as y
 		daemon.Register(name, func() { daemonBody(name) })
 	}
+	// one more handler for the slow daemon (schedule S5), never used by a burst
+	daemon.Register("hslow", func() { daemonBody("hslow") })
 	if daemon.Run() {
 		// the launcher is this program too: what it does between Run()
 		// returning and exiting (clean-up, log flush, exit hooks) is one more
@@ -60,6 +62,8 @@ type plan struct {
 	Burst   bool   `json:"burst,omitempty"`
 	// LingerMs: how long the launcher process stays alive after launch() returned
 	LingerMs int `json:"linger_ms,omitempty"`
+	// SlowMs: how long the daemon of schedule S5 takes before it does anything
+	SlowMs int `json:"slow_ms,omitempty"`
 	// ScrubEnv: the daemon clears its environment before calling Done()
 	ScrubEnv bool `json:"scrub_env,omitempty"`
 }
@@ -100,6 +104,11 @@ func daemonBody(registered string) {
 	}
 	os.WriteFile(filepath.Join(dir, "daemon.info.tmp"), []byte(fmt.Sprintf("%d %d", os.Getpid(), os.Getppid())), 0644)
 	os.Rename(filepath.Join(dir, "daemon.info.tmp"), filepath.Join(dir, "daemon.info"))
+	if p.Kind == "S5" {
+		// a daemon that needs seconds to start up (everything it does before
+		// Done(), the markers included, comes after this)
+		time.Sleep(time.Duration(p.SlowMs) * time.Millisecond)
+	}
 	if p.Kind == "S0" {
 		// the fault: this daemon dies before it ever calls Done()
 		fmt.Fprintln(os.Stderr, "daemon", registered, "cannot start")
@@ -340,7 +349,7 @@ func runOne(base string, p plan, barrier *sync.WaitGroup) (o outcome) {
 	if !got {
 		select {
 		case res = <-done:
-		case <-time.After(6 * time.Second):
+		case <-time.After(6*time.Second + time.Duration(p.SlowMs)*time.Millisecond):
 			fail("launch-did-not-return", "Launch has not returned 6s after the daemon called Done() (schedule S0: after it exited)")
 			return
 		}
@@ -572,6 +581,12 @@ func main() {
 	}
 	group++
 	plans = append(plans, plan{Kind: "S1", Markers: 2, Name: "h1", Group: group})
+	// S5, once per caller and alongside everything else: a daemon that takes
+	// seven seconds to reach Done() ("however slowly")
+	slowDone := make(chan outcome, 1)
+	go func() {
+		slowDone <- runOne(base, plan{Kind: "S5", Markers: 3, Name: "hslow", Group: -1, SlowMs: 7000}, nil)
+	}()
 	var outs []outcome
 	var prior []plan
 	var history [][]plan
@@ -608,6 +623,7 @@ func main() {
 			break // enough to report; failing launches are slow (they wait for time-outs)
 		}
 	}
+	outs = append(outs, <-slowDone)
 	type stats struct {
 		Launches   int            `json:"launches"`
 		PerKind    map[string]int `json:"per_schedule"`
